@@ -384,6 +384,125 @@ for (mode, cell), (r, recs) in mresults.items():
             elif not names(rec) or names(rec)[-1] not in ('Terminated', 'ErrorOccured'):
                 chk.violation(f'close.matrix.{cl}->{cn}', f'no-terminal-state|{mname}', f'{cl} -> {cn} ({mname}): ops {sq}: states {names(rec)}', replay)
 
+# ---- more in flight than the kernel absorbs: the sender pushes 8 MiB and ends its direction while the receiver (64 KiB
+#      receive buffer) is not reading for 1.5 s, so the relay meets a full send buffer (short writes, would-block) with
+#      the end-of-stream already queued behind the data. Both directions x both I/O modes x plain / TLS listener.
+import hashlib
+HUGE = 8 << 20
+def huge_in_flight(case):
+    mode, direction, tls = case
+    pattern = bytes(range(256)) * 4096  # 1 MiB, position dependent
+    blob = pattern * (HUGE // len(pattern))
+    want = hashlib.sha256(blob).hexdigest()
+    got = {}
+    ls = socket.socket()
+    ls.setsockopt(socket.SOL_SOCKET, socket.SO_REUSEADDR, 1)
+    ls.setsockopt(socket.SOL_SOCKET, socket.SO_RCVBUF, 65536)
+    ls.bind(('127.0.0.1', 0)); ls.listen(4)
+    oport = ls.getsockname()[1]
+    def origin():
+        try:
+            c, _ = ls.accept()
+            c.settimeout(20)
+            if direction == 'upload':
+                time.sleep(1.5)
+                h, n = hashlib.sha256(), 0
+                while True:
+                    d = c.recv(1 << 16)
+                    if not d:
+                        break
+                    h.update(d); n += len(d)
+                got['n'], got['sha'] = n, h.hexdigest()
+                c.sendall(b'ACK')      # the opposite direction is still open
+                c.close()
+            else:
+                if recv_exact(c, 2, 5) != b'go':
+                    got['err'] = 'no go'
+                    return
+                c.sendall(blob)
+                c.shutdown(socket.SHUT_WR)
+                got['late'] = recv_exact(c, 4, 15)
+                c.close()
+        except OSError as e:
+            got['err'] = repr(e)
+    t = threading.Thread(target=origin, daemon=True); t.start()
+    hp_, ap_ = free_port(), free_port()
+    l = {'name': 'http', 'bind': f'127.0.0.1:{hp_}'}
+    if tls:
+        l['tls'] = {'cert': f'{CERTS}/server.crt', 'key': f'{CERTS}/server.key'}
+    pxh = Proxy({'listeners': [l], 'connectors': [{'name': 'direct'}], 'rules': [{'target': 'direct'}], 'metrics': {'bind': f'127.0.0.1:{ap_}', 'ui': None},
+                 'ioParams': {'bufferSize': 65536, 'useSplice': mode}}, 'c04h')
+    pxh.api_port = ap_
+    if not pxh.start([hp_, ap_]):
+        return {'error': pxh.log()[-300:]}
+    try:
+        raw = socket.socket()
+        raw.setsockopt(socket.SOL_SOCKET, socket.SO_RCVBUF, 65536)
+        raw.settimeout(20)
+        raw.connect(('127.0.0.1', hp_))
+        s = raw
+        if tls:
+            ctx = ssl.create_default_context(cafile=f'{CERTS}/ca.crt')
+            s = ctx.wrap_socket(raw, server_hostname='localhost')
+        s.sendall(f'CONNECT 127.0.0.1:{oport} HTTP/1.1\r\nHost: x\r\n\r\n'.encode())
+        head, rest = recv_head(s, 5)
+        if not head.startswith(b'HTTP/1.1 200'):
+            return {'error': f'CONNECT -> {head[:40]!r}'}
+        if direction == 'upload':
+            s.sendall(blob)
+            if tls:
+                s.unwrap() if False else None
+                # a TLS client ends its direction with close_notify; the plain socket is half-closed below it
+                try:
+                    s.sock_shutdown = None
+                except Exception:
+                    pass
+            (raw if not tls else s).shutdown(socket.SHUT_WR) if not tls else s.unwrap().shutdown(socket.SHUT_WR)
+            ack = recv_exact(raw if tls else s, 3, 15) if not tls else None
+            t.join(20)
+            return {'received': got.get('n'), 'digest_ok': got.get('sha') == want, 'late_reply': (ack == b'ACK') if not tls else None, 'err': got.get('err')}
+        else:
+            s.sendall(b'go')
+            time.sleep(1.5)
+            h, n = hashlib.sha256(), len(rest)
+            h.update(rest)
+            while True:
+                try:
+                    d = s.recv(1 << 16)
+                except ssl.SSLError:
+                    break
+                except OSError:
+                    break
+                if not d:
+                    break
+                h.update(d); n += len(d)
+            try:
+                s.sendall(b'late')
+            except OSError:
+                pass
+            t.join(20)
+            return {'received': n, 'digest_ok': h.hexdigest() == want, 'late_reply': got.get('late') == b'late', 'err': got.get('err')}
+    except OSError as e:
+        return {'error': repr(e)}
+    finally:
+        pxh.stop(); ls.close()
+
+import ssl
+HCASES = [(m, d, t) for m in (True, False) for d in ('upload', 'download') for t in (False, True)]
+HCASES = [c for c in HCASES if not (c[2] and c[1] == 'upload')]   # (a TLS half-close from Python needs unwrap(); the download direction covers the TLS listener)
+for case, r in zip(HCASES, run_parallel(HCASES, huge_in_flight, workers=6)):
+    mode, direction, tls = case
+    evals += 1
+    mname = ('splice' if mode else 'buffered') + ('+tls' if tls else '')
+    if isinstance(r, tuple) or 'error' in r:
+        machinery(f'huge in flight {case}: {r}')
+    distinct.add(('huge', mname, direction, r['received'] == HUGE))
+    replay = {'useSplice': mode, 'tls_listener': tls, 'direction': direction, 'bytes_sent': HUGE, 'observed': r}
+    if r['received'] != HUGE or not r['digest_ok']:
+        chk.violation('close.huge-in-flight', f'end-of-stream-before-all-bytes:{direction}|{mname}', f'{direction} ({mname}): the sender wrote {HUGE} bytes and ended its direction while the receiver was not reading; the receiver got {r["received"]} bytes before end-of-stream (digest ok: {r["digest_ok"]})', replay)
+    elif r['late_reply'] is False:
+        chk.violation('close.huge-in-flight', f'opposite-direction-closed:{direction}|{mname}', f'{direction} ({mname}): all bytes arrived but the opposite direction did not carry a late reply', replay)
+
 if evals < 100 or len(distinct) < 10:
     machinery(f'vacuous: evals={evals} distinct={len(distinct)}')
 cov = {'evaluations': evals, 'distinct_nontrivial': len(distinct), 'transitions': sum(len(s) for s in seqs) * 2, 'traces_validated_against_impl': evals,
